@@ -544,7 +544,18 @@ def _isinf(a):
 @op("aten.isclose.default")
 def _isclose(a, b, rtol=1e-5, atol=1e-8, equal_nan=False):
     a, b = _bc(a, b)
-    f = lambda x, y: abs(x - y) <= S(atol) + S(rtol) * abs(y)
+
+    def f(x, y):
+        if isinstance(x, C) or isinstance(y, C):
+            # |x-y| <= atol + rtol*|y| without square roots: with D=|x-y|^2, Y=|y|^2, L = D - atol^2 - rtol^2 Y:
+            # true iff L <= 0 or L^2 <= 4 atol^2 rtol^2 Y
+            x, y = C.lift(x), C.lift(y)
+            Dq = (x - y).abs2()
+            Yq = y.abs2()
+            at, rt = S(atol), S(rtol)
+            L = Dq - at * at - rt * rt * Yq
+            return bor(L <= 0, L * L <= 4 * at * at * rt * rt * Yq)
+        return abs(x - y) <= S(atol) + S(rtol) * abs(y)
     return T(_ew(f)(a, b), dtype=torch.bool)
 
 
@@ -711,7 +722,18 @@ def _conj(a):
     return T(_ew1(lambda x: x.conjugate())(D(a)), dtype=CPLX)
 
 
-@op("aten.real.default", "aten.view_as_real.default")
+@op("aten.view_as_real.default")
+def _view_as_real(a):
+    d = D(a)
+    out = np.empty(d.shape + (2,), dtype=object)
+    for idx in np.ndindex(d.shape):
+        c = C.lift(d[idx])
+        out[idx + (0,)] = c.re
+        out[idx + (1,)] = c.im
+    return T(out, dtype=FLOAT)
+
+
+@op("aten.real.default")
 def _real(a):
     if str(a.dtype).startswith("torch.complex"):
         d = D(a)
@@ -1479,7 +1501,7 @@ def _norm2_of(vec):
         ex._norm_memo_path = ex.pc
     if all(f is not None for f in fps):
         for (pfps, pvec, pres) in memo:
-            if len(pvec) != len(vec):
+            if len(pvec) != len(vec) or any(f is None for f in pfps):
                 continue
             same = all(a == b for a, b in zip(fps, pfps))
             neg = all(a == -b for a, b in zip(fps, pfps))
